@@ -583,9 +583,18 @@ def gfi_vmap_repeat(ctx, rule="ROLE-vmap-constructor"):
     else:
         ctx.bad(rule, "core.GFI.vmap", "Vmap(self, const(in_axes), const(axis_size), const(axis_name), const(spmd_axis_name))", f"found {short(s.ret, ev, 200)}", func_loc(ctx, CORE + "GFI.vmap"))
     s = summarize(ctx, ev, CORE + "GFI.repeat")
-    want = ("call", ("attr", SELF, "vmap"), (), (("in_axes", NONE), ("axis_size", ("param", "n"))))
-    alt = ("call", ("attr", SELF, "vmap"), (NONE, ("param", "n")), ())
-    if s.ret in (want, alt):
+    # bind the call's arguments to GFI.vmap's own parameters (positional or keyword, any keyword order)
+    vnode, _ = fnode(ctx, CORE + "GFI.vmap")
+    pnames = [a.arg for a in vnode.args.args][1:]
+    r = s.ret
+    bound = None
+    if is_call(r) and r[1] == ("attr", SELF, "vmap") and not any(a[0] == "star" for a in r[2]) and all(k is not None for k, _ in r[3]) and len(r[2]) <= len(pnames):
+        bound = dict(zip(pnames, r[2]))
+        bound.update(dict(r[3]))
+    nparam = [a.arg for a in fnode(ctx, CORE + "GFI.repeat")[0].args.args][1:]
+    good = bound is not None and bound.get("in_axes") == NONE and len(nparam) == 1 and bound.get("axis_size") == ("param", nparam[0]) \
+        and all(bound.get(k, NONE) == NONE for k in pnames if k not in ("in_axes", "axis_size"))
+    if good:
         ctx.ok(rule, "core.GFI.repeat", "vmap(in_axes=None, axis_size=n): n independent draws with shared arguments")
     else:
         ctx.bad(rule, "core.GFI.repeat", "vmap(in_axes=None, axis_size=n)", f"found {short(s.ret, ev, 200)}", func_loc(ctx, CORE + "GFI.repeat"))
